@@ -4,7 +4,7 @@ Model of the code that binds media and control to the negotiated peer (property 
 
   /repo/server_udp_listener.go   clientAddr.fill, clients map, addClient / removeClient,
                                  the dispatch in run()
-  /repo/client_udp_listener.go   the source filter in run() (readIP.Equal, readPort, the
+  /repo/client_udp_listener.go   the source filter in run() (readIP.Equal, readZone, readPort, the
                                  AnyPortEnable latch, lastPacketTime)
   Go standard library            net.IP.Equal (4-byte, 16-byte and IPv4-in-IPv6 forms)
 
@@ -31,9 +31,11 @@ def ipEqual (a b : IP) : Bool :=
   else if a.length = 16 ∧ b.length = 4 then a.take 12 == v4InV6Prefix && a.drop 12 == b
   else false
 
-/-- `clientAddr`: a fixed 16-byte array plus a port, compared with `==` (it is a Go map key). -/
+/-- `clientAddr`: a fixed 16-byte array, the IPv6 zone and a port, compared with `==` (it is a Go map
+key). -/
 structure ClientAddr where
   ip   : List UInt8
+  zone : String
   port : Int
 deriving DecidableEq, Repr, Inhabited
 
@@ -41,8 +43,8 @@ deriving DecidableEq, Repr, Inhabited
 def copy16 (ip : IP) : List UInt8 := ip.take 16 ++ List.replicate (16 - ip.length) 0
 
 /-- `clientAddr.fill`. -/
-def fill (ip : IP) (port : Int) : ClientAddr :=
-  if ip.length = 4 then ⟨v4InV6Prefix ++ ip, port⟩ else ⟨copy16 ip, port⟩
+def fill (ip : IP) (zone : String) (port : Int) : ClientAddr :=
+  if ip.length = 4 then ⟨v4InV6Prefix ++ ip, zone, port⟩ else ⟨copy16 ip, zone, port⟩
 
 /-! ## the server listener's `clients` map -/
 
@@ -65,14 +67,17 @@ def set (m : Clients α) (k : ClientAddr) (v : α) : Clients α := (k, v) :: era
 
 end Clients
 
-/-- `addClient(ip, port, cb)` -/
-def addClient {α} (m : Clients α) (ip : IP) (port : Int) (cb : α) : Clients α := m.set (fill ip port) cb
+/-- `addClient(ip, zone, port, cb)` -/
+def addClient {α} (m : Clients α) (ip : IP) (zone : String) (port : Int) (cb : α) : Clients α :=
+  m.set (fill ip zone port) cb
 
-/-- `removeClient(ip, port)` -/
-def removeClient {α} (m : Clients α) (ip : IP) (port : Int) : Clients α := m.erase (fill ip port)
+/-- `removeClient(ip, zone, port)` -/
+def removeClient {α} (m : Clients α) (ip : IP) (zone : String) (port : Int) : Clients α :=
+  m.erase (fill ip zone port)
 
-/-- the lookup of the read loop: `ca.fill(addr.IP, addr.Port); cb, ok := u.clients[ca]` -/
-def dispatch {α} (m : Clients α) (ip : IP) (port : Int) : Option α := m.get (fill ip port)
+/-- the lookup of the read loop: `ca.fill(addr.IP, addr.Zone, addr.Port); cb, ok := u.clients[ca]` -/
+def dispatch {α} (m : Clients α) (ip : IP) (zone : String) (port : Int) : Option α :=
+  m.get (fill ip zone port)
 
 /-! ## the server listener with the effects of its callbacks
 
@@ -104,14 +109,16 @@ def bump (st : List (Nat × CbStat)) (cb len : Nat) (now : Int) : List (Nat × C
   let o := statOf st cb
   (cb, { bytes := o.bytes + len, pkts := o.pkts + 1, last := now }) :: st.filter (fun e => e.1 != cb)
 
-/-- one iteration of `serverUDPListener.run`: a datagram of `len` bytes from `(ip, port)` at time `now` -/
-def Srv.recv (s : Srv) (ip : IP) (port : Int) (len : Nat) (now : Int) : Srv × Option Nat :=
-  match dispatch s.clients ip port with
+/-- one iteration of `serverUDPListener.run`: a datagram of `len` bytes from `(ip%zone, port)` at time `now` -/
+def Srv.recv (s : Srv) (ip : IP) (zone : String) (port : Int) (len : Nat) (now : Int) : Srv × Option Nat :=
+  match dispatch s.clients ip zone port with
   | none => (s, none)
   | some cb => ({ s with log := ⟨cb, len, now⟩ :: s.log, stats := bump s.stats cb len now }, some cb)
 
-def Srv.add (s : Srv) (ip : IP) (port : Int) (cb : Nat) : Srv := { s with clients := addClient s.clients ip port cb }
-def Srv.remove (s : Srv) (ip : IP) (port : Int) : Srv := { s with clients := removeClient s.clients ip port }
+def Srv.add (s : Srv) (ip : IP) (zone : String) (port : Int) (cb : Nat) : Srv :=
+  { s with clients := addClient s.clients ip zone port cb }
+def Srv.remove (s : Srv) (ip : IP) (zone : String) (port : Int) : Srv :=
+  { s with clients := removeClient s.clients ip zone port }
 
 /-! ## the client listener -/
 
@@ -119,13 +126,16 @@ structure CL where
   anyPort   : Bool          -- Client.AnyPortEnable
   readIP    : IP
   readPort  : Int
+  readZone  : String := ""  -- zone of the RTSP connection's remote address
+  multicast : Bool := false -- multicast listeners do not look at the zone
   last      : Int := 0      -- lastPacketTime
   delivered : List (Nat × Int) := []   -- (payload length, source port) handed to readFunc, newest first
 deriving DecidableEq, Repr, Inhabited
 
 /-- one iteration of `clientUDPListener.run` -/
-def CL.recv (s : CL) (ip : IP) (port : Int) (len : Nat) (now : Int) : CL × Bool :=
+def CL.recv (s : CL) (ip : IP) (zone : String) (port : Int) (len : Nat) (now : Int) : CL × Bool :=
   if !ipEqual s.readIP ip then (s, false)
+  else if !s.multicast && s.readZone != zone then (s, false)
   else if s.anyPort && s.readPort == 0 then
     ({ s with readPort := port, last := now, delivered := (len, port) :: s.delivered }, true)
   else if s.readPort != port then (s, false)
